@@ -23,9 +23,7 @@ type Prog struct {
 	pkgs      []*ssa.Package
 	ppkgs     []*packages.Package
 	contracts *ContractSet
-	so        *Sorts
 	loopCache map[*ssa.Function]*LoopInfo
-	effCache  map[*ssa.Function][]Effect
 	globals   map[*ssa.Global]int
 	funcIDs   map[*ssa.Function]int
 	implCache map[string][]types.Type
@@ -64,8 +62,8 @@ func loadProg(repo string, contractsDir string) (*Prog, error) {
 		prog, spkgs = ssautil.AllPackages(pkgs, ssa.GlobalDebug|ssa.InstantiateGenerics)
 	}
 	prog.Build()
-	p := &Prog{repo: repo, fset: prog.Fset, prog: prog, ppkgs: pkgs, so: newSorts(), loopCache: map[*ssa.Function]*LoopInfo{},
-		effCache: map[*ssa.Function][]Effect{}, globals: map[*ssa.Global]int{}, funcIDs: map[*ssa.Function]int{}, implCache: map[string][]types.Type{}, byKey: map[string]*ssa.Function{}}
+	p := &Prog{repo: repo, fset: prog.Fset, prog: prog, ppkgs: pkgs, loopCache: map[*ssa.Function]*LoopInfo{},
+		 globals: map[*ssa.Global]int{}, funcIDs: map[*ssa.Function]int{}, implCache: map[string][]types.Type{}, byKey: map[string]*ssa.Function{}}
 	for _, sp := range spkgs {
 		if sp != nil {
 			p.pkgs = append(p.pkgs, sp)
